@@ -490,3 +490,65 @@ impl Bundle for Padding {
         Ok(Self { bits })
     }
 }
+
+/// Verification hook H6 (`--cfg jxl_oxide_verif`): access to the crate-private JPEG bit writer,
+/// Huffman table builder and header length accessors. Nothing here changes behaviour.
+#[cfg(jxl_oxide_verif)]
+pub mod verif {
+    pub use crate::bit_writer::{BitWriter, verif_has_ff_byte as has_ff_byte};
+
+    /// A table built by `HuffmanCode::build`.
+    pub struct HuffmanTable(crate::huffman::BuiltHuffmanTable);
+
+    impl HuffmanTable {
+        /// Runs `HuffmanCode::build` on `(counts, values)` exactly as the DHT replay does.
+        pub fn build(counts: [u8; 17], values: Vec<u8>) -> Self {
+            let code = crate::huffman::HuffmanCode {
+                is_ac: false,
+                id: 0,
+                is_last: true,
+                counts,
+                values,
+            };
+            Self(code.build())
+        }
+
+        /// `(lengths, left-aligned code bits)` indexed by symbol.
+        pub fn tables(&self) -> (&[u8], &[u64]) {
+            self.0.verif_tables()
+        }
+
+        /// `BuiltHuffmanTable::lookup`: `Some((length, left-aligned bits))`, `None` on error.
+        pub fn lookup(&self, symbol: u8) -> Option<(u8, u64)> {
+            self.0.lookup(symbol).ok()
+        }
+    }
+
+    /// `(expected_data_len, expected_icc_len, expected_exif_len, expected_xmp_len)`.
+    pub fn expected_lens(header: &crate::JpegBitstreamHeader) -> (usize, usize, usize, usize) {
+        (
+            header.expected_data_len(),
+            header.expected_icc_len(),
+            header.expected_exif_len(),
+            header.expected_xmp_len(),
+        )
+    }
+
+    /// `(ty, length)` of every APP marker in the header.
+    pub fn app_markers(header: &crate::JpegBitstreamHeader) -> Vec<(u32, u32)> {
+        header
+            .app_markers
+            .iter()
+            .map(|am| (am.ty, am.length))
+            .collect()
+    }
+
+    /// `(counts, values)` of every Huffman code in the header.
+    pub fn huffman_codes(header: &crate::JpegBitstreamHeader) -> Vec<([u8; 17], Vec<u8>)> {
+        header
+            .huffman_codes
+            .iter()
+            .map(|hc| (hc.counts, hc.values.clone()))
+            .collect()
+    }
+}
